@@ -70,8 +70,9 @@ class DumperBase(DataStreamProcessor):
             counter += 1
             yield row
         DumperBase.inc_attr(self.datapackage.descriptor, self.datapackage_rowcount, counter)
-        DumperBase.inc_attr(resource.res.descriptor, self.resource_rowcount, counter)
-        resource.res.commit()
+        for descriptor in self.datapackage.descriptor['resources']:
+            if descriptor['name'] == resource.res.name:
+                DumperBase.inc_attr(descriptor, self.resource_rowcount, counter)
         self.datapackage.commit()
 
     def process_resources(self, resources):
